@@ -30,10 +30,31 @@ def main(argv=None) -> int:
     except ModuleNotFoundError:
         print(f"no driver for {pid}", file=sys.stderr)
         return 2
-    ctx = Ctx(pid, a.tier, seed)
+    tier = a.tier
+    if a.replay:
+        import json
+        try:
+            rec = json.load(open(a.replay))          # read before anything is cleaned up
+        except Exception as e:  # noqa: BLE001
+            print(f"MACHINERY-FAILURE {pid}: cannot read replay file {a.replay}: {e}", file=sys.stderr)
+            return 2
+        seed = int(rec.get("seed", seed))
+        tier = rec.get("tier", tier) if rec.get("tier") in ("quick", "thorough") else tier
+    ctx = Ctx(pid, tier, seed, replay_mode=bool(a.replay))
     try:
         if a.replay:
-            return mod.replay(ctx, a.replay)
+            # 1. the recorded case alone, re-executed against the current tree (when the driver can do that); 2. if that shows nothing - many cases
+            #    depend on the run around them (objects with a past, streams, sessions) - the whole check with the recorded seed and tier, which
+            #    regenerates the same cases deterministically
+            from .common import NotReplayable
+            try:
+                rc = mod.replay(ctx, a.replay)
+            except (NotReplayable, KeyError, IndexError, TypeError):
+                rc = 0
+            if rc != 0:
+                return rc
+            print(f"[{pid}] the recorded case alone shows no violation on this tree; re-running the whole check with seed={seed} tier={tier}")
+            ctx = Ctx(pid, tier, seed, replay_mode=True)
         return mod.run(ctx)
     except MachineryError as e:
         print(f"MACHINERY-FAILURE {pid}: {e}", file=sys.stderr)
